@@ -14,3 +14,5 @@ import RenetVerif.Props.SrcTieReplay
 import RenetVerif.Props.SrcTiePrefix
 import RenetVerif.Props.SrcTieSlice
 import RenetVerif.Props.SrcTiePacket
+import RenetVerif.Props.SrcTieAcks
+import RenetVerif.Props.SrcTieTokenTable
